@@ -35,6 +35,9 @@ def gen(rng, tier):
         focus["proj_abs"] = True
     if rng.random() < 0.3:
         focus["res_abs"] = True
+    if rng.random() < 0.35:
+        # candidates ranked by the main workplace (the default worker rule): IDs read from a file are equal, not identical, strings
+        focus.update(comps=True, facilities=True, mainwp=True, contention=rng.choice(["low", "mid"]), task_rules=False)
     spec = C.forward_spec(rng, tier, focus, max_time=rng.choice([10, 25, 40, 40]))
     if rng.random() < 0.12:
         # a sub-project task (automatic, advancing by another amount than 1 per step: its sub-project has another unit time)
@@ -46,6 +49,8 @@ def gen(rng, tier):
             if rng.random() < 0.3:
                 m["deps"].append([a, i, rng.choice(spec["profile"]["kinds"])])
         spec["ranks"]["tsub"] = max(spec["ranks"].values()) + 1
+    if rng.random() < 0.5:
+        spec["model"]["share_id_objects"] = True  # main_workplace_id is the workplace's own ID object, as in `main_workplace_id=wp.ID`
     spec["all_k"] = (tier == "thorough")
     spec["ks"] = [rng.randint(0, 30) for _ in range(3)]
     spec["chain"] = sorted(rng.randint(0, 20) for _ in range(rng.randint(2, 3)))
